@@ -331,6 +331,56 @@ def unbounded_read_loops(ctx, modnames):
     return out
 
 
+def silent_eof_exits(ctx, modnames):
+    """Chunk-reading loops whose end-of-stream branch (`if not chunk:` / `if len(chunk) == 0:` / `if chunk == b""`) leaves the loop
+    without raising, in a function that never compares the length it collected with the size it was asked for: at end of stream the
+    function returns what it has -- a short value, and no underflow error.  (A `break` followed by `if len(value) != n: raise` is fine.)"""
+    out = []
+    for mn in modnames:
+        src = ctx.sm.get(mn)
+        if src is None:
+            continue
+        qidx = qualname_index(src.tree)
+        for fn in [n for n in ast.walk(src.tree) if isinstance(n, (ast.FunctionDef, ast.AsyncFunctionDef))]:
+            params = {a.arg for a in fn.args.args + fn.args.kwonlyargs + fn.args.posonlyargs}
+            # an (in)equality between some len(...) / accumulated count and a parameter (or `remaining`-style local tested for != 0) after the fact
+            def is_len(e):
+                return isinstance(e, ast.Call) and isinstance(e.func, ast.Name) and e.func.id == "len"
+            post_checks = []
+            for c in ast.walk(fn):
+                if isinstance(c, ast.Compare) and len(c.ops) == 1 and isinstance(c.ops[0], (ast.Eq, ast.NotEq, ast.Lt, ast.Gt)):
+                    sides = [c.left, c.comparators[0]]
+                    if any(is_len(x) for x in sides) and any(isinstance(x, ast.Name) and x.id in params for x in sides):
+                        post_checks.append(c)
+            for loop in [n for n in ast.walk(fn) if isinstance(n, (ast.While, ast.For))]:
+                chunks = set()
+                for n in ast.walk(loop):
+                    if isinstance(n, (ast.Assign, ast.NamedExpr)) and isinstance(n.value, ast.Call) and isinstance(n.value.func, ast.Attribute) \
+                            and n.value.func.attr in READ_METHODS:
+                        for t in (n.targets if isinstance(n, ast.Assign) else [n.target]):
+                            if isinstance(t, ast.Name):
+                                chunks.add(t.id)
+                if not chunks:
+                    continue
+                for iff in [n for n in ast.walk(loop) if isinstance(n, ast.If)]:
+                    t = iff.test
+                    empty = (isinstance(t, ast.UnaryOp) and isinstance(t.op, ast.Not) and isinstance(t.operand, ast.Name) and t.operand.id in chunks) or \
+                            (isinstance(t, ast.Compare) and len(t.ops) == 1 and isinstance(t.ops[0], ast.Eq) and
+                             ((is_len(t.left) and isinstance(t.left.args[0], ast.Name) and t.left.args[0].id in chunks and
+                               isinstance(t.comparators[0], ast.Constant) and t.comparators[0].value == 0) or
+                              (isinstance(t.left, ast.Name) and t.left.id in chunks and isinstance(t.comparators[0], ast.Constant) and t.comparators[0].value == b"")))
+                    if not empty:
+                        continue
+                    raises = any(isinstance(x, ast.Raise) for st in iff.body for x in ast.walk(st))
+                    leaves = any(isinstance(x, (ast.Break, ast.Return)) for st in iff.body for x in ast.walk(st))
+                    later = [c for c in post_checks if c.lineno > loop.end_lineno]
+                    if leaves and not raises and not later:
+                        q, _f = enclosing(qidx, src.tree, iff)
+                        out.append({"function": f"{mn}:{q}", "stmt": "if " + ast.unparse(iff.test)[:60] + ": " + "; ".join(ast.unparse(x)[:30] for x in iff.body)[:60],
+                                    "file": src.rel, "line": iff.lineno})
+    return out
+
+
 def mutable_buffer_returns(ctx, modnames):
     """Functions of the decode path that hand out a bytearray / memoryview: the buffer is allocated locally (or obtained
     from a function that hands one out) and returned without conversion.  Interprocedural by name within the modules
